@@ -14,4 +14,5 @@ const AutoYield = true
 
 func installAuto() {
 	jsimy.Hook = func(site string) { engine.HookYield(site, nil) }
+	jsimy.LockHook = engine.HookLockWait
 }
